@@ -3,6 +3,7 @@ module verifharness
 go 1.26.4
 
 require (
+	github.com/google/uuid v1.6.0
 	github.com/sharedcode/sop v0.0.0
 	github.com/sharedcode/sop/adapters/redis v0.0.0
 	github.com/sharedcode/sop/ai v0.0.0
@@ -12,13 +13,29 @@ require (
 )
 
 require (
+	cel.dev/expr v0.23.1 // indirect
+	github.com/antlr4-go/antlr/v4 v4.13.0 // indirect
+	github.com/cespare/xxhash/v2 v2.3.0 // indirect
+	github.com/dgryski/go-rendezvous v0.0.0-20200823014737-9f7001d12a5f // indirect
 	github.com/goccy/go-json v0.9.11 // indirect
-	github.com/google/uuid v1.6.0 // indirect
+	github.com/gocql/gocql v1.7.0 // indirect
+	github.com/golang/snappy v1.0.0 // indirect
+	github.com/google/cel-go v0.25.0 // indirect
+	github.com/hailocab/go-hostpool v0.0.0-20160125115350-e80d13ce29ed // indirect
 	github.com/klauspost/cpuid/v2 v2.3.0 // indirect
 	github.com/klauspost/reedsolomon v1.12.4 // indirect
 	github.com/ncw/directio v1.0.5 // indirect
+	github.com/redis/go-redis/v9 v9.8.0 // indirect
 	github.com/sethvargo/go-retry v0.3.0 // indirect
+	github.com/sharedcode/sop/adapters/cassandra v0.0.0-00010101000000-000000000000 // indirect
+	github.com/sharedcode/sop/incfs v0.0.0-00010101000000-000000000000 // indirect
+	github.com/stoewer/go-strcase v1.2.0 // indirect
+	golang.org/x/exp v0.0.0-20260410095643-746e56fc9e2f // indirect
 	golang.org/x/sync v0.20.0 // indirect
+	google.golang.org/genproto/googleapis/api v0.0.0-20250303144028-a0af3efb3deb // indirect
+	google.golang.org/genproto/googleapis/rpc v0.0.0-20250303144028-a0af3efb3deb // indirect
+	google.golang.org/protobuf v1.36.9 // indirect
+	gopkg.in/inf.v0 v0.9.1 // indirect
 )
 
 replace github.com/sharedcode/sop => /repo
